@@ -42,6 +42,12 @@ pub struct MacroDef {
     pub duplicate: bool,
     /// use a Rust keyword as the name
     pub keyword: Option<u8>,
+    /// float macros only: the name is first defined as the integer 2, `#undef`'d and then given
+    /// its float body, all before anything refers to it. The macro itself falls under the known
+    /// redefinition finding (bindgen keeps the first definition); macros defined *afterwards*
+    /// see the float in C and must see it in the bindings
+    #[serde(default)]
+    pub int_then_float: bool,
 }
 
 #[derive(Clone, Copy, Debug, Serialize, Deserialize, PartialEq, Eq)]
@@ -363,6 +369,11 @@ impl Header {
                 MacroBody::Float(e) => {
                     info.kind = "float";
                     info.fprec = fprecision(e, &f_prec);
+                    if m.int_then_float {
+                        macro_text.push_str(&format!("#define {name} 2\n#undef {name}\n"));
+                        info.redefined = true;
+                        info.features.insert("int-then-float-redefinition");
+                    }
                     let body = frender(e, &f_names);
                     f_names.push(name.clone());
                     f_prec.push(info.fprec);
@@ -464,7 +475,11 @@ pub fn header_strategy() -> BoxedStrategy<Header> {
         1 => (0u8..20).prop_map(MacroBody::CallsFuncLike),
         1 => any::<u16>().prop_map(MacroBody::Ident),
     ];
-    let mac = (body, proptest::option::weighted(0.06, iexpr_strategy()), proptest::bool::weighted(0.05), proptest::option::weighted(0.08, any::<u8>())).prop_map(|(body, redefined, duplicate, keyword)| MacroDef { body, redefined, duplicate, keyword });
+    let mac = (body, proptest::option::weighted(0.06, iexpr_strategy()), proptest::bool::weighted(0.05), proptest::option::weighted(0.08, any::<u8>())).prop_map(|(body, redefined, duplicate, keyword)| MacroDef { body, redefined, duplicate, keyword, int_then_float: false });
+    let mac = (mac, proptest::bool::weighted(0.12)).prop_map(|(mut m, f)| {
+        m.int_then_float = f && matches!(m.body, MacroBody::Float(_));
+        m
+    });
     let eval_lit = prop_oneof![
         4 => (-5i128..300),
         1 => Just(i32::MAX as i128),
